@@ -161,7 +161,7 @@ let oracle (store : string) (cfg : fscfg) (ops : op list) (impl : string list) :
                  add_class fails cls;
                  (* follow the implementation's handle numbering *)
                  (match o with
-                  | OGet _ | OPeek _ when String.length tok > 2 && String.sub tok 0 2 = "b:" ->
+                  | OGet _ | OPeek _ when String.length tok >= 2 && String.sub tok 0 2 = "b:" ->
                     let c = bytes_of_hex (String.sub tok 2 (String.length tok - 2)) in
                     s := { s_map = !s.s_map; s_hnd = !s.s_hnd @ [(c, (match o with OPeek _ -> true | _ -> false))] }
                   | _ -> ())
